@@ -23,9 +23,17 @@ pub struct ChandeKrollStop {
 	cross: CrossD,
 	prev_short: f64,
 	prev_long: f64,
+	/// implementation reading (recorded discrepancy): the linear position formula is also applied when the stops are in reverse order
+	follow_impl: bool,
 }
 
 pub fn make(cfg: &Cfg, c0: &RC) -> Option<Box<dyn IndRef>> {
+	build(cfg, c0, false)
+}
+pub fn make_alt(cfg: &Cfg, c0: &RC) -> Option<Box<dyn IndRef>> {
+	build(cfg, c0, true)
+}
+fn build(cfg: &Cfg, c0: &RC, follow_impl: bool) -> Option<Box<dyn IndRef>> {
 	let (_, p) = cfg.ma("ma");
 	let q = cfg.int("q");
 	let x = cfg.float("x");
@@ -46,6 +54,7 @@ pub fn make(cfg: &Cfg, c0: &RC) -> Option<Box<dyn IndRef>> {
 		cross: CrossD::new(ls0.v - hs0.v),
 		prev_short: hs0.v,
 		prev_long: ls0.v,
+		follow_impl,
 	}))
 }
 
@@ -76,7 +85,7 @@ impl IndRef for ChandeKrollStop {
 		let s0 = if short != long && (short - long).abs() <= 16.0 * crate::eps() * short.abs().max(long.abs()) {
 			// the stops differ by rounding only: their order (and the position between them) is not determined
 			Sig::Any
-		} else if short > long {
+		} else if short > long || (self.follow_impl && short < long) {
 			// position between the stops: `stop long` -> full sell, `stop short` -> full buy (beyond: clamped)
 			ratio_sig((src - long) / (short - long) * 2.0 - 1.0)
 		} else if short == long {
